@@ -32,11 +32,13 @@ var lockSpecs = []lockSpec{
 		map[string]int{"closed": 0, "dataWriter": 3}, map[string]string{"idx": "idx"},
 		[]string{"Put", "Has", "Get", "GetStream", "Finalize"}},
 	{"v2/storage/deferred/deferredcarwriter.go", "DeferredCarWriter", []string{"lk"},
-		map[string]int{"closed": 0, "w": 1, "f": 5}, nil,
+		map[string]int{"closed": 0, "w": 1, "f": 5, "putCb": 6}, nil,
+		// OnPut (listener registration) is set-up, not one of the concurrent operations C08 names, and is
+		// unlocked in go-car; the listener list it fills IS guarded state of Put.
 		[]string{"Has", "Put", "Close"}},
 }
 
-// field ids: 0 closed, 1 index contents / lazily created writer, 3 writer position, 4 finalized, 5 file handle
+// field ids: 0 closed, 1 index contents / lazily created writer, 3 writer position, 4 finalized, 5 file handle, 6 OnPut listener list
 var writeMethods = map[string]bool{"InsertNoReplace": true, "Load": true, "Seek": true, "Write": true}
 
 type lockWalker struct {
